@@ -154,9 +154,11 @@ def run(ctx):
                 g['today'] = '2021/05/06'
             want = '2021/05/06' if flag else '2020/03/04'
             files = {b'food.yaml': b'', b'log.yaml': b'2020/03/01:\n  a: 1\n'}
-            cases.append(AppCase(['stats'], (), g=g, env=e, cfg=cfgd, files=files, disk=True,
-                                 meta={'kind': 'load:today', 'setting': 'today', 'flag': flag, 'env': False, 'cfg': cfg, 'where': where, 'winner': 'flag' if flag else 'cfg',
-                                       'expect': ('contains', ('  Today:              %s\n' % want).encode())}))
+            # the current date is a calendar day: the process time zone must not move it
+            for tz in ('UTC', 'America/New_York', 'Pacific/Honolulu', 'Asia/Tokyo'):
+                cases.append(AppCase(['stats'], (), g=g, env=e, cfg=cfgd, files=files, disk=True, tz=tz,
+                                     meta={'kind': 'load:today', 'setting': 'today', 'flag': flag, 'env': False, 'cfg': cfg, 'where': where, 'winner': 'flag' if flag else 'cfg',
+                                           'variant': tz, 'expect': ('contains', ('  Today:              %s\n' % want).encode())}))
     # interactions: dates on the command line are read in the effective date format, whatever its source
     for fsrc in ('flag', 'env', 'cfg', 'default'):
         for where in (('default', 'flag', 'env') if fsrc == 'cfg' else ('none',)):
